@@ -86,6 +86,42 @@ def startup_run(binary, tier, seed, only=None, kinds=("startup",)):
     return runs, viol, cov
 
 
+def wsrecover_run(binary, tier, seed, only=None):
+    """WsRecovery.tla: a websocket subscriber that goes away and comes back (history / recovery of the headers channel)."""
+    d = c.sub("wsrecover")
+    runs = []
+    hmax = 2
+    path = os.path.join(d, "wsrecover.jsonl")
+    if only is None:
+        consts = {"HistoryMax": hmax, "MaxPub": 6 if tier == "quick" else 8, "MaxAway": 2, "Emit": '"none"'}
+        cfg = os.path.join(d, "props.cfg")
+        c.write_cfg(cfg, "MWSpec", consts, ["NoDuplicates", "InOrder", "ExactlyOnceOrTold", "NeverSilentGap"])
+        runs.append(c.tlc_must_pass(c.run_tlc("MC_WsRecovery", cfg, workers=4), "MC_WsRecovery"))
+        gcfg = os.path.join(d, "gen.cfg")
+        c.write_cfg(gcfg, "MWSpec", dict(consts, Emit='"paths"'), ["EmitInv"])
+        raw = os.path.join(d, "ws.out")
+        r = c.tlc_must_pass(c.run_tlc("MC_WsRecovery", gcfg, workers=1, out_file=raw), "MC_WsRecovery")
+        runs.append(r)
+        allp = os.path.join(d, "all.jsonl")
+        c.unquote_lines(raw, allp)
+        lines = sorted(set(open(allp).read().splitlines()))
+        rng = random.Random(seed)
+        want = 160 if tier == "quick" else 1500
+        if len(lines) > want:
+            lines = rng.sample(lines, want)
+        with open(path, "w") as f:
+            f.write("\n".join(lines) + "\n")
+        c.log("  gen wsrecover: %d behaviours" % len(lines))
+    else:
+        with open(path, "w") as f:
+            f.write(json.dumps(only) + "\n")
+    agg = fc.replay(binary, path, seed, op="wsrecover", nproc=1 if only else 8, extra_env={"VERIF_HISTORY_MAX": hmax})
+    st = agg["stats"]
+    if only is None and not agg["mismatches"] and (st.get("back:recovered=true", 0) == 0 or st.get("back:recovered=false", 0) == 0):
+        raise c.Infra("vacuous wsrecover run: %s" % dict(st))
+    return runs, agg
+
+
 def c05(tier, seed, replay_path=None):
     binary = fc.build()
     if replay_path and json.load(open(replay_path))["case"].get("family") == "startup":
@@ -162,8 +198,11 @@ CHECKS = {"C05": c05}
 
 def c11(tier, seed, replay_path=None):
     binary = fc.build()
-    kinds = {"events", "ingestion-blocked", "sync-notify"}
+    kinds = {"events", "ingestion-blocked", "sync-notify", "ws-recovery"}
     env = {"VERIF_NOTIFY": "1"}
+    if replay_path and (json.load(open(replay_path))["case"].get("mismatch") or {}).get("kind") == "ws-recovery":
+        _, wagg = wsrecover_run(binary, tier, seed, only=json.load(open(replay_path))["case"]["behaviour"])
+        return verdict_from(wagg, kinds, "C11", tier, [])
     if replay_path:
         payload = json.load(open(replay_path))
         d = c.sub("replay")
@@ -230,6 +269,11 @@ def c11(tier, seed, replay_path=None):
     runs.append(sr_)
     gen_counts["p2p"] = {"behaviours": sn, "compared": sagg["stats"].get("notify-checked", 0)}
     aggs.append(sagg)
+    # a websocket subscriber that goes away and comes back: recovered from the channel's history, or told that it could not be
+    wruns, wagg = wsrecover_run(binary, tier, seed)
+    runs += wruns
+    gen_counts["wsrecover"] = {"behaviours": wagg["behaviours"], "reconnections": wagg["stats"].get("ev:back", 0), "setup_skipped": wagg["stats"].get("setup-skipped", 0)}
+    aggs.append(wagg)
     agg = merge(aggs)
     st = agg["stats"]
     if st.get("events-expected", 0) == 0 or st.get("res:duplicate", 0) == 0 or st.get("res:forbidden", 0) == 0 or st.get("fault:err", 0) == 0:
@@ -338,7 +382,7 @@ def c15(tier, seed, replay_path=None):
         e = dict(env)
         e.update({"VERIF_OP": "conc", "VERIF_OUT": os.path.join(d, "t.ndjson"), "VERIF_DB": os.path.join(d, "c.db"),
                   "VERIF_SEED": str(seed * 1000 + i), "VERIF_SCENARIOS": str(nsc)})
-        procs.append((d, subprocess.Popen([binary, "-test.run", "^TestHarness$", "-test.timeout", "0"], env=e, cwd=d, stdout=subprocess.PIPE, stderr=subprocess.PIPE, text=True)))
+        procs.append((d, c.FileProc([binary, "-test.run", "^TestHarness$", "-test.timeout", "0"], e, d)))
     stats = {}
     traces = []
     import time as _t
